@@ -201,6 +201,18 @@ def falcon_root(cls):
     return None
 
 
+def well_formed(inst):
+    """the framework base __init__ really ran: the attributes falcon's default handlers read exist.
+    (a builtin between two cooperative falcon __init__s in the MRO swallows the super() call)"""
+    if isinstance(inst, falcon.HTTPStatus):
+        names = ('status', 'headers', 'text')
+    elif isinstance(inst, falcon.HTTPError):
+        names = ('status', 'title', 'description', 'headers', 'link', 'code')
+    else:
+        return True
+    return all(hasattr(inst, n) for n in names)
+
+
 class Program:
     def __init__(self, spec):
         self.spec = spec
@@ -291,6 +303,12 @@ class Program:
             resp.set_header(k, v)
 
     def make_exc(self, es):
+        inst = self._make_exc(es)
+        if not well_formed(inst):
+            raise RuntimeError('generated class %s builds a broken instance' % es['cls'])
+        return inst
+
+    def _make_exc(self, es):
         cls = self.resolve(es['cls'])
         root = falcon_root(cls)
         if root is None:
@@ -1160,7 +1178,7 @@ def _constructible(cls, root):
             root.__init__(inst, 400, title='t', description='d', headers=None, href='h', href_text='t', code=1)
         else:
             root.__init__(inst, title='t', description='d', headers=None, href='h', href_text='t', code=1)
-        return True
+        return well_formed(inst)
     except Exception:  # noqa
         return False
 
